@@ -33,6 +33,7 @@ CONSTANTS Acc,          \* account names
           MaxOpen,      \* outstanding control requests per client (model bound)
           ServerAcks,   \* the server acknowledges messages / receipts to their sender (TRUE for the double; FALSE shrinks the bounded model)
           MaxRetries,   \* retry receipts in a behaviour (model bound)
+          MaxReorder,   \* the server delivers one of the first MaxReorder stanzas queued for a client (1: queue order)
           ReshowAllowed \* deviation switch: FALSE = claimed (a client never shows a message twice)
 
 VARIABLES nretry,   \* retry receipts written so far (model bound only)
@@ -150,16 +151,19 @@ Process(c, tg, note) ==
                       IN IF a \in note THEN Append(q2, ack) ELSE q2]
   /\ UNCHANGED <<nretry, msgs, emitted, shown, nshown, pend, asked, seen, open, faults, hit>>
 
-Deliver(c, fault, out) ==
-  /\ outq[c] # <<>>
-  /\ LET x == Head(outq[c])
+(* The server delivers the j-th stanza queued for c (j = 1: queue order).          *)
+RemoveAt(q, j) == SubSeq(q, 1, j - 1) \o SubSeq(q, j + 1, Len(q))
+DeliverAt(c, j, fault, out) ==
+  /\ j \in 1..Len(outq[c])
+  /\ LET x == outq[c][j]
          dl == IF fault = "corrupt" THEN [x EXCEPT !.f = 1] ELSE x
      IN /\ fault # "" => /\ x.k = "msg" /\ <<c, x.i>> \notin hit /\ faults < MaxFaults
-        /\ outq' = [outq EXCEPT ![c] = IF fault = "dup" THEN Append(Tail(@), x) ELSE Tail(@)]
+        /\ outq' = [outq EXCEPT ![c] = IF fault = "dup" THEN Append(RemoveAt(@, j), x) ELSE RemoveAt(@, j)]
         /\ faults' = IF fault = "" THEN faults ELSE faults + 1
         /\ hit' = IF fault = "" THEN hit ELSE hit \cup {<<c, x.i>>}
         /\ ClientEffect(c, dl, out)
   /\ UNCHANGED msgs
+Deliver(c, fault, out) == DeliverAt(c, 1, fault, out)
 
 (* A party's process is restarted while none of its stanzas is in flight.          *)
 Restart(c) == Quiescent /\ UNCHANGED vars
@@ -186,10 +190,10 @@ MSubmit == /\ Len(msgs) < MaxMsgs
            /\ \E c \in Acc, d \in (Acc \cup (IF Members = {} THEN {} ELSE {"G"})) :
                  \E o \in Legal(c, None, Append(msgs, [s |-> c, d |-> d])) : Submit(c, d, o)
 MProcess == \E c \in Acc : inq[c] # <<>> /\ Process(c, Targets(c), {})
-MDeliver == \E c \in Acc, f \in {"", "dup", "corrupt"} :
-              /\ outq[c] # <<>>
-              /\ LET x == Head(outq[c]) dl == IF f = "corrupt" THEN [x EXCEPT !.f = 1] ELSE x IN
-                   \E o \in Legal(c, dl, msgs) : Deliver(c, f, o)
+MDeliver == \E c \in Acc, f \in {"", "dup", "corrupt"}, j \in 1..MaxReorder :
+              /\ j <= Len(outq[c])
+              /\ LET x == outq[c][j] dl == IF f = "corrupt" THEN [x EXCEPT !.f = 1] ELSE x IN
+                   \E o \in Legal(c, dl, msgs) : DeliverAt(c, j, f, o)
 MNext == MSubmit \/ MProcess \/ MDeliver
 MSpec == Init /\ [][MNext]_vars
 
